@@ -492,6 +492,14 @@ def _slice_cases_all():
                     yield dict(kind="slice", n=n, a=a, b=b, c=c)
 
 
+def _fixed_fc_cases():
+    """In every run: irregular (and mixed multivariate) subsets that leave out the observations reaching the
+    parent's global minimum / maximum of the sampling points."""
+    for data in ("I", "MI"):
+        for ix in (["s", 1, None, None], ["s", None, -1, None], ["s", 1, -1, None], ["a", [2, 1]], ["i", 1]):
+            yield dict(kind="fc", data=data, n=4, seed=20240 + len(data), ix=ix)
+
+
 def gen_fc(rng: Rng, k):
     kinds = ["I", "I", "D", "D2", "B", "M", "MI", "I2", "I2"]
     kind = kinds[k % len(kinds)]
@@ -578,6 +586,7 @@ def _gen_cases(rng: Rng, tier):
             for comp in _compositions(n):
                 yield from gen_cat_fresh(rng, comp)
     # first-class
+    yield from _fixed_fc_cases()
     for k in range(420 if big else 28):
         yield gen_fc(rng, k)
 
@@ -694,7 +703,15 @@ def _fc_data(case):
         a, v = {}, {}
         for k in range(n):
             m = rng.randint(6, 9)
-            t = np.array(sorted(rng.sample(range(0, 17), m))) / 16.0
+            # the global minimum / maximum of the sampling points are reached by the first / last observation
+            # only: a subset that leaves them out is standardised differently from its parent
+            pool = range(2, 15) if 0 < k < n - 1 else (range(0, 15) if k == 0 else range(2, 17))
+            t = sorted(rng.sample(pool, m))
+            if k == 0:
+                t[0] = 0
+            if k == n - 1:
+                t[-1] = 16
+            t = np.array(t) / 16.0
             a[k] = A.DenseArgvals({"input_dim_0": t})
             v[k] = np.array([float(rng.dyadic(-1, 1, 5)) + (k + 1) * np.sin(3 * u) for u in t])
         return FD.IrregularFunctionalData(A.IrregularArgvals(a), V.IrregularValues(v))
@@ -750,6 +767,12 @@ def summarise(r):
     A, V, FD = cu._fd()
     import pandas as pd
 
+    if isinstance(r, A.IrregularArgvals):
+        return ["IA", [int(k) for k in r.keys()], [summarise(d) for d in r.values()]]
+    if isinstance(r, A.DenseArgvals):
+        return ["DA", list(r.keys()), [np.asarray(t, dtype=float).ravel().tolist() for t in r.values()]]
+    if isinstance(r, dict):
+        return ["dict", [str(k) for k in r.keys()], [summarise(v) for v in r.values()]]
     if isinstance(r, tuple):
         return ["tuple"] + [summarise(x) for x in r]
     if isinstance(r, FD.IrregularFunctionalData):
@@ -797,6 +820,17 @@ def _methods(x):
         "rescale(weights)": lambda o: o.rescale(weights=2.0) if not multi else o.rescale(weights=np.full(o.n_functional, 2.0)),
         "inner_product": lambda o: o.inner_product(),
         "covariance": lambda o: o.covariance(),
+        # derived attributes of the object itself, of its items and of what is built from it
+        "attr:n_points": lambda o: o.n_points,
+        "attr:n_dimension": lambda o: o.n_dimension,
+        "attr:argvals_stand": lambda o: [c.argvals_stand for c in o.data] if multi else (None if basis else o.argvals_stand),
+        "attr:min_max": lambda o: [c.argvals.min_max for c in o.data] if multi else (None if basis else o.argvals.min_max),
+        "attr:stand of items": lambda o: [([c.argvals_stand for c in p.data] if multi else (None if basis else p.argvals_stand)) for p in o],
+        "attr:stand of [0]": lambda o: [c.argvals_stand for c in o[0].data] if multi else (None if basis else o[0].argvals_stand),
+        "attr:stand of [::-1]": lambda o: [c.argvals_stand for c in o[::-1].data] if multi else (None if basis else o[::-1].argvals_stand),
+        "attr:stand of concat": lambda o: (lambda r: [c.argvals_stand for c in r.data] if multi else r.argvals_stand)(type(o).concatenate(o, o)),
+        "normalize(stand)": lambda o: o.normalize(use_argvals_stand=True),
+        "rescale(stand)": lambda o: o.rescale(use_argvals_stand=True),
         "getitem0": lambda o: o[0],
         "getitem-1": lambda o: o[-1],
         "getitem(np.int64)": lambda o: o[np.int64(0)],
@@ -949,6 +983,10 @@ def compare(case, impl, model):
 # --------------------------------------------------------------------------
 
 def _strip_labels(s):
+    if isinstance(s, list) and s and s[0] == "IA":
+        return ["IA", [_strip_labels(x) for x in s[2]]]
+    if isinstance(s, list) and s and s[0] == "dict" and all(k.lstrip("-").isdigit() for k in s[1]):
+        return ["dict", [_strip_labels(x) for x in s[2]]]
     if isinstance(s, list) and s and s[0] == "I":
         return ["I", s[2], s[3]]
     if isinstance(s, list) and s and s[0] == "df" and "id" in s[1]:
@@ -1124,7 +1162,7 @@ def oracle(case, impl):
             what = f"{case['data']} data, n_obs={case['n']}, subset {case['ix']}"
             # `MultivariateFunctionalData.normalize` concatenates the single observations `self[0], self[1], …`,
             # whose irregular components keep their labels: the concatenation clause fails inside it
-            via_concat = (name.startswith("concat") and case["data"] in ("I", "MI", "I2")) or (name == "normalize" and case["data"] == "MI")
+            via_concat = ((name.startswith("concat") or name == "attr:stand of concat") and case["data"] in ("I", "MI", "I2")) or (name == "normalize" and case["data"] == "MI")
             if via_concat:
                 entry = "concatenate" if name.startswith("concat") else "normalize"
             if r["sub_err"] != r["twin_err"] and via_concat:
